@@ -1923,7 +1923,11 @@ class SessionCache(object):
                 continue
 
             if not isinstance(reverse, Set): throw(NotImplementedError)
-            if reverse in modified_m2m: continue
+            if reverse in modified_m2m:
+                for obj in objects:
+                    setdata = obj._vals_.get(attr)
+                    if setdata is not None: setdata.added = setdata.removed = setdata.absent = None
+                continue
             added, removed = modified_m2m.setdefault(attr, (set(), set()))
             for obj in objects:
                 setdata = obj._vals_[attr]
